@@ -915,6 +915,8 @@ class Executor(Engine):
         """LEMMAS of a contract module: statements over the CONTRACTS alone (laws that must follow from the postconditions, e.g.
         symmetry of an equality).  No code is read: a lemma fails only if a contract it mentions no longer carries it."""
         self.cur = None
+        from . import expr as _e
+        _e._fresh_n[0] = 0
         n0 = len(self.obls)
         pc = []
         for lab, text in _labelled(self.axioms):
@@ -986,6 +988,10 @@ class Executor(Engine):
         """VCs of one real function (ast.FunctionDef) against its contract"""
         c = self.contracts[qual]
         self.cur = c
+        # fresh names are numbered per function: the text of an obligation depends on its own function, contract and module axioms only
+        from . import expr as _e
+        _e._fresh_n[0] = 0
+        self._ground_cache = None
         c.short = qual.split(':')[1].replace('@', '~')   # '~tag' marks a specialised contract ('@' is the line separator in names)
         c.qual = qual
         n0 = len(self.obls)
